@@ -1257,6 +1257,8 @@ void Logic::dumpHeaderToFile(std::ostream & dump_out) const {
     vec<SymRef> const & symbols = sym_store.getSymbols();
     for (SymRef s : symbols) {
         if (s == getSym_true() || s == getSym_false()) continue;
+        // abstract values and the ite of each sort are not symbols a script can (or has to) declare
+        if (not isKnownToUser(s) or isIte(s)) continue;
         if (isConstant(s)) {
             if (isBuiltinConstant(s)) continue;
             dump_out << "(declare-const ";
